@@ -329,9 +329,21 @@ func typeToStructTags(typ *runtime.Type) runtime.StructTags {
 		if runtime.IsIgnoredStructField(field) {
 			continue
 		}
-		tags = append(tags, runtime.StructTagFromField(field))
+		tag := runtime.StructTagFromField(field)
+		if field.Anonymous && !tag.IsTaggedKey && isStructOrStructPtr(field.Type) {
+			// the members of an embedded struct are promoted: the name of its type is not a key of the object
+			continue
+		}
+		tags = append(tags, tag)
 	}
 	return tags
+}
+
+func isStructOrStructPtr(typ reflect.Type) bool {
+	if typ.Kind() == reflect.Ptr {
+		typ = typ.Elem()
+	}
+	return typ.Kind() == reflect.Struct
 }
 
 func compileStruct(typ *runtime.Type, structName, fieldName string, structTypeToDecoder map[uintptr]Decoder) (Decoder, error) {
